@@ -17,7 +17,9 @@ Floats == {F("1.5"), F("-2.25"), F("0.1"), F("5.0"), F("1e-07"), F("1e+22"), F("
            F("-1e-07"), F("-1e+22"), F("5e-324"), F("-2.5e-10"), F("1.7976931348623157e+308"), F("100.0"), F("-7.0")}
 Scalars == Ints \cup Floats \cup {[t |-> "bool", b |-> TRUE], [t |-> "bool", b |-> FALSE], [t |-> "null"]} \cup StrValues
 \* one representative per kind for the elements of compound values
+\* (1 / 1.0 / true and 0 / 0.0 / -0.0 / false are equal - and hash alike - as Python objects, but are different Nix values)
 Reps == {I("7"), I("-3"), F("1.5"), F("-2.25"), [t |-> "bool", b |-> TRUE], [t |-> "null"],
+         I("1"), F("1.0"), I("0"), F("0.0"), F("-0.0"), [t |-> "bool", b |-> FALSE],
          [t |-> "str", c |-> <<"a", "\"">>], [t |-> "str", c |-> <<>>]}
 L(xs) == [t |-> "list", xs |-> xs]
 D(ks, vs) == [t |-> "dict", ks |-> ks, vs |-> vs]
